@@ -1597,8 +1597,47 @@ def result_flow(fn, call):
     return flows_forward(fn, call.dest[0], transparent=fwd_transparent)
 
 
+def _result_discr_edges(fn, carry):
+    """(ok targets, err targets) of switches on the discriminant of a Result value carried in `carry`
+    (`match r { Ok(..) => .., Err(..) => .. }`, `if let Err(e) = r`, `if r.is_ok()`)"""
+    oks, errs = [], []
+    for i in fn.reachable():
+        t = fn.blocks[i]['t']
+        if t['k'] != 'switch':
+            continue
+        for (bb, si, kind, r) in fn.defs().get(op_local(t['o']), []):
+            if kind == 'assign' and r['k'] == 'discr' and r['p'][0] in carry and fn.locals[r['p'][0]].get('h') == 'std::result::Result' and not [x for x in r['p'][1] if x != '*']:
+                vals = dict((v, tg) for v, tg in t['vals'])
+                if 0 in vals:
+                    oks.append(vals[0])
+                elif all(v == 1 for v in vals):
+                    oks.append(t['otherwise'])
+                if 1 in vals:
+                    errs.append(vals[1])
+                elif all(v == 0 for v in vals):
+                    errs.append(t['otherwise'])
+            elif kind == 'call' and r.name in ('is_ok', 'is_err') and r.path.startswith('std::result::Result') and r.args and op_local(r.args[0]) is not None:
+                src = op_local(r.args[0])
+                base = src
+                ds = [x for x in fn.defs().get(src, []) if x[2] == 'assign' and x[3]['k'] == 'ref']
+                if len(ds) == 1:
+                    base = ds[0][3]['p'][0]
+                if base not in carry and src not in carry:
+                    continue
+                tt = [tg for v, tg in t['vals'] if v != 0] or ([t['otherwise']] if all(v == 0 for v, _ in t['vals']) else [])
+                ff = [tg for v, tg in t['vals'] if v == 0] or ([t['otherwise']] if all(v != 0 for v, _ in t['vals']) else [])
+                if r.name == 'is_ok':
+                    oks += tt
+                    errs += ff
+                else:
+                    oks += ff
+                    errs += tt
+    return oks, errs
+
+
 def ok_block(fn, call):
-    """Block entered when the (awaited) Result of `call` passed `?` successfully, or None."""
+    """Block entered when the (awaited) Result of `call` is known to be Ok: the Continue edge of `?`, or the Ok edge of a
+    `match` / `if let` / `is_ok()` test on that value.  None when the value is never tested."""
     carry = result_flow(fn, call)
     for c in fn.calls:
         if c.name == 'branch' and c.args and op_local(c.args[0]) in carry and c.bb in fn.reachable():
@@ -1610,6 +1649,9 @@ def ok_block(fn, call):
                 for v, tgt in t['vals']:
                     if v == 0:
                         return tgt
+    oks, errs = _result_discr_edges(fn, carry)
+    if len(set(oks)) == 1:
+        return oks[0]
     return None
 
 
@@ -1623,6 +1665,9 @@ def err_block(fn, call):
                 for v, tgt in t['vals']:
                     if v == 1:
                         return tgt
+    oks, errs = _result_discr_edges(fn, carry)
+    if len(set(errs)) == 1:
+        return errs[0]
     return None
 
 
@@ -1762,6 +1807,31 @@ def is_runner(prog, gid):
                 exits = [bb for (bb, k, _) in exit_defs(f) if bb in f.reachable()]
                 if exits and all(f.term_dominates(c.bb, e) for e in exits):
                     k2s.append(fid)
+    # forwarding runner: g hands its own closure *parameter* to a runner, and every exit of g follows the completion of such a
+    # hand-off (e.g. a helper choosing between the in-place and the blocking-pool runner)
+    params = set()
+    root = prog.fns.get(gid)
+    if root is not None:
+        for i in range(1, root.argc + 1):
+            if root.locals[i].get('h') == 'param' or root.locals[i]['s'] in [pn for (pn, t) in root.bounds if 'FnOnce' in t or 'Fn(' in t or t.startswith('std::ops::Fn')]:
+                params.add(root.locals[i]['s'])
+    if params and body is not None:
+        carried = set()
+        for l, ty in enumerate(body.locals):
+            if ty['s'] in params:
+                carried.add(l)
+        done = []
+        for c in body.calls:
+            if c.bb not in body.reachable() or c.name == 'poll':
+                continue
+            if any(op_local(a) in carried for a in c.args) and any(t in prog.fns and t != gid and is_runner(prog, t) for t in prog.resolve(c)):
+                cb = completion_block(body, c)
+                if cb is not None:
+                    done.append(cb)
+        exits = [bb for (bb, k, _) in exit_defs(body) if bb in body.reachable()]
+        if done and exits and not any(e in body.reach_from([0], avoid_enter=done) for e in exits):
+            tab[gid] = True
+            return True
     if not k2s:
         return False
     for c in body.calls:
